@@ -205,6 +205,10 @@ def run(ctx):
                     ctx.sample(dict(dtype=str(wd), program=[list(s) for s in seq]))
     finally:
         F.linear = real_linear
+    if ctx.tier == "thorough" and ctx.shard == 0 and ctx.only_case is None:
+        from qv import suite
+
+        suite.run_suite_under_monitor(ctx, "C05")
     if ctx.counters.get("monitor_error", 0) > max(20, 0.01 * ctx.counters.get("monitored_calls", 0)):
         ctx.inconclusive(f"monitor errors: {ctx.counters.get('monitor_error')} "
                          f"{sorted(ctx.sets.get('monitor_errors', []))[:5]}")
